@@ -93,7 +93,8 @@ def r1(ctx):
     for (var, conds), (bi, s, op) in seen.items():
         cd = dict(conds)
         if var == 'Underreplicated' and cd.get('unique') is True:
-            ok_u = const_int(op) == 2
+            from ..analysis import const_int_u
+            ok_u = const_int_u(lib, op) == 2 or (const_int_u(lib, (direct_def(b, op)[1]['rv']['op'] if direct_def(b, op)[0] == 'stmt' and direct_def(b, op)[1]['rv']['k'] == 'use' else op)) == 2)
         elif var == 'Underreplicated' and cd.get('unique') is False and cd.get('rf_under') is True:
             ok_ru = 'rf_under' in backslice(b, [op]).field_names() and not backslice(b, [op]).binops
         elif var == 'Overreplicated' and cd.get('unique') is False and cd.get('rf_under') is False:
